@@ -127,7 +127,7 @@ def gen_unit_cases(r, n, tc):
             conf, exp = gen_layout_case(r)
             for k, val in exp:
                 cases.append(("KL %s %s 0" % (G.hx(conf), G.hx(G.rcase(r, k.encode()))), {"kind": "KL", "stream": "layout", "expect": val}))
-        elif m < 0.93:
+        elif m < 0.86:
             sch, c, tag = G.gen_flat_case(r)
             meta = {"kind": "PF", "tag": tag, "schema": sch, "conf": c}
             if r.random() < 0.4:
@@ -136,6 +136,9 @@ def gen_unit_cases(r, n, tc):
                 cases.append(("PC 1 %s %s" % (sch, G.hx(raw)), meta))
             else:
                 cases.append(("PF 1 %s %s" % (sch, G.hx(c)), meta))
+        elif m < 0.965:
+            sch, c, tag = G.gen_nested_case(r)
+            cases.append(("NP 1 %s %s" % (sch, G.hx(c)), {"kind": "NP", "tag": tag, "conf": c}))
         else:
             d = bytes(r.choice(b"ab  ,,x") for _ in range(r.randint(0, 10)))
             dl = r.choice([b" ", b",", b" ", b"x"])
@@ -680,7 +683,7 @@ def check(run):
         if kind == "KL":
             nontriv = io.startswith("found") or io.startswith("error")
             run.dist("unit:KL:" + meta.get("stream", "?").split(":")[0])
-        elif kind in ("PF", "PC"):
+        elif kind in ("PF", "PC", "NP"):
             nontriv = io.startswith("accept") or meta.get("tag") not in ("valid", "bytes", "corpus")
             run.dist("unit:%s:%s:%s" % (kind, meta.get("tag"), io.split()[0]))
         else:
@@ -713,10 +716,15 @@ def check(run):
                 bad = ("layout:key_lookup", "key_lookup of %r in %r gives %s, the value written is %r" % (G.unhx(w[2]), G.unhx(w[1]), io, meta["expect"]))
         elif kind in ("PF", "PC") and meta.get("tag") != "corpus":
             bad = flat_oracle(meta, io) or value_oracle(meta, io)
+        elif kind == "NP":
+            if meta["tag"] in ("misspelt", "wrong-level", "unknown-keyword", "brace") and io == "accept":
+                bad = ("strict:nested:%s-accepted" % meta["tag"], "a nested configuration with a %s mutation is accepted: %r" % (meta["tag"], meta["conf"]))
+            elif meta["tag"] == "valid" and io != "accept":
+                bad = ("layout:nested:valid-refused", "a valid nested configuration (random layout) is refused: %r" % meta["conf"])
         if bad:
             run.violation(bad[0], bad[1], {"kind": "unit", "case": c, "impl": io, "model": mo})
         if io != mo:
-            comp = "unit:" + {"KL": "key_lookup", "CB": "braces", "SC": "comments", "SS": "split_string", "PF": "flat", "PC": "flat"}.get(kind, kind)
+            comp = "unit:" + {"KL": "key_lookup", "CB": "braces", "SC": "comments", "SS": "split_string", "PF": "flat", "PC": "flat", "NP": "nested"}.get(kind, kind)
             if kind in ("PF", "PC"):
                 # is it the pinned (lenient) value rule?  then the repaired defect is back: name it
                 rcl, ml, _ = V.run_lines(model, [c.replace(kind + " 1 ", kind + " 0 ", 1)])
